@@ -108,8 +108,15 @@ func (r *InitiatorRig) Returned() bool {
 // AcceptorSession builds the accepting session for a new client the way
 // tests/acceptor.go does.
 func AcceptorSession(cfg Cfg, h simplefixgo.AcceptorHandler, cs session.CounterStorage, ms session.MessageStorage) (*session.Session, error) {
+	return AcceptorSessionOpts(OptsFor(cfg), cfg, h, cs, ms)
+}
+
+// AcceptorSessionOpts is AcceptorSession with the options object supplied by the
+// caller: an acceptor application builds one session.Opts and uses it for the
+// session of every connection.
+func AcceptorSessionOpts(opts *session.Opts, cfg Cfg, h simplefixgo.AcceptorHandler, cs session.CounterStorage, ms session.MessageStorage) (*session.Session, error) {
 	closeTimeout := time.Duration(cfg.CloseTimeoutMs) * time.Millisecond
-	s, err := session.NewAcceptorSession(OptsFor(cfg), h,
+	s, err := session.NewAcceptorSession(opts, h,
 		&session.LogonSettings{LogonTimeout: 30 * time.Second, CloseTimeout: closeTimeout,
 			HeartBtLimits: &session.IntLimits{Min: cfg.HBMin, Max: cfg.HBMax}},
 		func(req *session.LogonSettings) error {
